@@ -586,3 +586,187 @@ contract(
     raises={'TaggedValueNotFilledError': _tvf_notset}, allocates=False, props=('C14',),
     note='returns the value, or raises TaggedValueNotFilledError iff it is NO_VALUE',
 )
+
+
+# --- Buildable.__setitem__ (index keys; slice keys are decided by the bounded layer) ---------------
+def _si_key(c):
+  h = c.old
+  g = bsig(h, c['self'])
+  return z3.If(c['key'] == VARARGS, vps_val(g), c['key'])
+
+
+def _si_ctx(c, heap=None):
+  return type(c)({'self': c['self'], 'key': _si_key(c), 'value': c['value']}, c.old,
+                 heap if heap is not None else c.heap, result=c.result)
+
+
+def _si_req(c):
+  h = c.old
+  g = bsig(h, c['self'])
+  v = c['value']
+  return z3.And(BInv(h, c['self']),
+                z3.Or(is_VInt(c['key']), z3.And(c['key'] == VARARGS, sig_vps(g) >= 0)),
+                z3.Implies(isref(h, v, 'TaggedValueCls'),
+                           z3.And(BFields(h, v), ref(v) != ref(c['self']))))
+
+
+contract(
+    'config.Buildable.__setitem__', F, 'Buildable.__setitem__',
+    requires=_si_req, ensures=lambda c: _sii_post(_si_ctx(c)),
+    raises={'IndexError': lambda c: _sii_oob(_si_ctx(c, c.old))},
+    raises_post={'IndexError': _unchanged}, result='none',
+    mod=lambda c: _sii_mod(_si_ctx(c, c.old)), writes=WRITES + ('start', 'stop', 'step'),
+    cases=lambda c: [isref(c.old, c['value'], 'TaggedValueCls'), H.tracking_on(c.old),
+                     c['key'] == VARARGS],
+    props=('C03', 'C16'),
+    note='cfg[i] = v / cfg[fdl.VARARGS] = v: exactly _set_item_by_index on the resolved position '
+         '(slice keys: bounded layer)',
+)
+
+
+# --- ordered_arguments (C01, C03, C07, C08: the argument view every traversal is built on) -----------
+def _oa_flags(c):
+  return [bval(c[n]) for n in ('include_var_keyword', 'include_defaults', 'include_unset',
+                               'include_positional', 'include_equal_to_default')]
+
+
+def _oa_terms(c):
+  h0 = c.old
+  b = c['buildable']
+  g = bsig(h0, b)
+  A = ref(bfields(h0, b)[1])
+  return h0, g, A, h0.hasarr(A), h0.valarr(A)
+
+
+def _oa_req(c):
+  h = c.old
+  return z3.And(BInv(h, c['buildable']),
+                *[is_VBool(c[n]) for n in ('include_var_keyword', 'include_defaults', 'include_unset',
+                                           'include_positional', 'include_equal_to_default')],
+                # the `value != param.default` filter is user-defined equality: the contract covers
+                # the default include_equal_to_default=True (the other value is bounded)
+                bval(c['include_equal_to_default']))
+
+
+def oa_incl(g, has0, i, inc_def, inc_unset):
+  """Named/positional-only parameter i contributes an entry."""
+  return z3.Or(isset(g, has0, i), z3.And(sig_hasdef(g, i), inc_def),
+               z3.And(z3.Not(sig_hasdef(g, i)), inc_unset))
+
+
+def oa_val(g, has0, val0, i):
+  return z3.If(isset(g, has0, i), val0[poskey(g, i)],
+               z3.If(sig_hasdef(g, i), sig_dflt(g, i), NO_VALUE))
+
+
+def oa_has(g, has0, key, upto, vdone, kw_done_fn, flags):
+  """Membership of `key` in the result after parameters [0, upto) were processed, `vdone`
+  variadic values were copied, and the var-keyword pass covered keys satisfying kw_done_fn."""
+  inc_vk, inc_def, inc_unset, inc_pos, inc_eq = flags
+  i = ival(key)
+  s = sval(key)
+  si = sig_idx(g, s)
+  vps = sig_vps(g)
+  named = lambda ix: z3.And(0 <= ix, ix < upto, sig_kind(g, ix) != VP, sig_kind(g, ix) != VK,
+                            oa_incl(g, has0, ix, inc_def, inc_unset))
+  extra_name = z3.And(has0[key], z3.Or(z3.Not(is_VStr(key)), si < 0, sig_kind(g, si) == VK))
+  return z3.Or(
+      z3.And(is_VInt(key), named(i), sig_kind(g, i) == PO),
+      z3.And(is_VInt(key), vps >= 0, vps <= i, i < vps + vdone),
+      z3.And(is_VStr(key), si >= 0, named(si), sig_kind(g, si) != PO),
+      z3.And(inc_vk, extra_name, kw_done_fn(key)))
+
+
+def oa_value(g, has0, val0, key):
+  i = ival(key)
+  si = sig_idx(g, sval(key))
+  return z3.If(z3.And(is_VInt(key), i < sig_n(g), sig_kind(g, i) == PO), oa_val(g, has0, val0, i),
+               z3.If(z3.And(is_VStr(key), si >= 0, sig_kind(g, si) != VK, sig_kind(g, si) != PO,
+                            sig_kind(g, si) != VP),
+                     oa_val(g, has0, val0, si), val0[key]))
+
+
+def _oa_res_inv(c, res, upto, vdone, kw_done_fn):
+  h0, g, A, has0, val0 = _oa_terms(c)
+  h = c.heap
+  r = ref(res)
+  k = z3.Const('oa_k', Val)
+  flags = _oa_flags(c)
+  return z3.And(
+      is_VRef(res), r >= h0.alloc, r < h.alloc, cls_is(h.cls(r), 'dict'),
+      FA([k], h.has(r, k) == oa_has(g, has0, k, upto, vdone, kw_done_fn, flags), patterns=[h.has(r, k)]),
+      FA([k], z3.Implies(h.has(r, k), h.dget(r, k) == oa_value(g, has0, val0, k)),
+         patterns=[h.dget(r, k)]))
+
+
+def _oa_inv0(c):
+  h0, g, A, has0, val0 = _oa_terms(c)
+  kk = c.k
+  vps = sig_vps(g)
+  vdone = z3.If(z3.And(vps >= 0, vps < kk), store_nvar(g, has0), z3.IntVal(0))
+  return z3.And(0 <= kk, kk <= sig_n(g), c.v('buildable') == c['buildable'],
+                *[c.v(n) == c[n] for n in ('include_var_keyword', 'include_defaults', 'include_unset',
+                                           'include_positional', 'include_equal_to_default')],
+                _oa_res_inv(c, c.v('result'), kk, vdone, lambda key: z3.BoolVal(False)))
+
+
+def _oa_inv1(c):
+  """inner `while index in arguments` of the *args parameter."""
+  h0, g, A, has0, val0 = _oa_terms(c)
+  m = c.k
+  vps = sig_vps(g)
+  return z3.And(m >= 0, vps >= 0, m <= store_nvar(g, has0), c.v('index') == VInt(vps + m),
+                c.v('buildable') == c['buildable'],
+                *[c.v(n) == c[n] for n in ('include_var_keyword', 'include_defaults', 'include_unset',
+                                           'include_positional', 'include_equal_to_default')],
+                _oa_res_inv(c, c.v('result'), vps, m, lambda key: z3.BoolVal(False)))
+
+
+def _oa_inv2(c):
+  """var-keyword pass over buildable.__arguments__.items() (ghost key enumeration)."""
+  from pyvc.expr import dkeys_pos
+  h0, g, A, has0, val0 = _oa_terms(c)
+  kk = c.k
+  return z3.And(0 <= kk, c.v('buildable') == c['buildable'],
+                *[c.v(n) == c[n] for n in ('include_var_keyword', 'include_defaults', 'include_unset',
+                                           'include_positional', 'include_equal_to_default')],
+                _oa_res_inv(c, c.v('result'), sig_n(g), store_nvar(g, has0),
+                            lambda key: dkeys_pos(has0, key) < kk))
+
+
+def _oa_post(c):
+  h0, g, A, has0, val0 = _oa_terms(c)
+  h = c.heap
+  inc_vk, inc_def, inc_unset, inc_pos, inc_eq = _oa_flags(c)
+  r = ref(c.result)
+  k = z3.Const('oa_k', Val)
+  full = lambda key: oa_has(g, has0, key, sig_n(g), store_nvar(g, has0), lambda x: z3.BoolVal(True),
+                            _oa_flags(c))
+  return z3.And(
+      is_VRef(c.result), r >= h0.alloc, cls_is(h.cls(r), 'dict'),
+      FA([k], h.has(r, k) == z3.And(full(k), z3.Or(inc_pos, is_VStr(k))), patterns=[h.has(r, k)]),
+      FA([k], z3.Implies(h.has(r, k), h.dget(r, k) == oa_value(g, has0, val0, k)),
+         patterns=[h.dget(r, k)]),
+      # default flags: exactly the argument store
+      z3.Implies(z3.And(inc_vk, z3.Not(inc_def), z3.Not(inc_unset), inc_pos),
+                 z3.And(FA([k], h.has(r, k) == has0[k], patterns=[h.has(r, k)]),
+                        FA([k], z3.Implies(has0[k], h.dget(r, k) == val0[k]), patterns=[h.dget(r, k)]))))
+
+
+contract(
+    'config.ordered_arguments', F, 'ordered_arguments',
+    requires=_oa_req, ensures=_oa_post,
+    raises={'ValueError': lambda c: z3.And(z3.Not(bval(c['include_equal_to_default'])),
+                                           bval(c['include_defaults']))},
+    defaults={'include_var_keyword': VBool(z3.BoolVal(True)), 'include_defaults': VBool(z3.BoolVal(False)),
+              'include_unset': VBool(z3.BoolVal(False)), 'include_positional': VBool(z3.BoolVal(True)),
+              'include_equal_to_default': VBool(z3.BoolVal(True))},
+    loops={0: Loop(_oa_inv0, mod=lambda c: [ref(c.v('result'))], fields=[]),
+           1: Loop(_oa_inv1, mod=lambda c: [ref(c.v('result'))], fields=[]),
+           2: Loop(_oa_inv2, mod=lambda c: [ref(c.v('result'))], fields=[])},
+    cases=lambda c: _oa_flags(c)[:4],
+    props=('C01', 'C03', 'C07', 'C08', 'C17'),
+    note='a fresh dict: every set parameter under its canonical key with its value (defaults / '
+         'NO_VALUE as the flags say), the *args values, the extra **kwargs names; with the default '
+         'flags exactly the argument store; the Buildable is not modified (frame)',
+)
